@@ -20,7 +20,7 @@ LEVEL = 'model_checking'
 RULE = ('case = body kind {empty str, str, bytes, list, list with None, returned generator (coroutine), streamed generator of str / of '
         'bytes / with empty items first-middle-last / many chunks, file object, file-like object with short reads, streamed list, non-streamed generator / tuple} x size {0, small with multi-byte '
         'characters, 70 KiB} x status {200, 201, 204, 304, 302 via a returned redirect event, 303 via raise Redirect, 403 via raise Forbidden, 404 via notfound(), 500 via raise} x entry {plain component handling `request`, Controller method behind the Dispatcher} x HTTP/1.0 | 1.1 x Connection {absent, '
-        'keep-alive, close} x {GET, HEAD}; every single case and every sequence of 2 (thorough: 3 from a reduced menu) cases on one '
+        'keep-alive, close; also written Close, CLOSE, Keep-Alive, KEEP-ALIVE} x {GET, HEAD}; every single case and every sequence of 2 (thorough: 3 from a reduced menu) cases on one '
         'connection; non-trivial = every case; distinct = distinct case sequence')
 ASSUMPTIONS = [
     'http.client.HTTPResponse is the independent decoder; each response is decoded from exactly the bytes written for it',
@@ -311,10 +311,22 @@ def single_cases(tier):
                     yield ('str', 'small', status, version, conn, method)
 
 
+MIXED_CASE = ('Close', 'CLOSE', 'Keep-Alive', 'KEEP-ALIVE')     # connection options are case-insensitive (RFC 7230 6.1)
+
+
 def sequences(tier):
     singles = list(single_cases(tier))
     for c in singles:
         yield (c,)
+    # the Connection wish written in another case: the same behaviour as in lower case, alone and followed by a second request
+    for kind in ('str', 'gen_str', 'file'):
+        for version in ('1.0', '1.1'):
+            for conn in MIXED_CASE:
+                for method in ('GET', 'HEAD'):
+                    yield ((kind, 'small', 200, version, conn, method),)
+                if conn.lower() == 'keep-alive':
+                    for conn2 in (None, 'close', 'Close'):
+                        yield ((kind, 'small', 200, version, conn, 'GET'), ('str', 'small', 200, '1.1', conn2, 'GET'))
     # sequences: first request keeps the connection alive
     firsts = [c for c in singles if c[1] != 'big' and ((c[3] == '1.1' and c[4] != 'close') or (c[3] == '1.0' and c[4] == 'keep-alive'))]
     seconds = [c for c in singles if c[1] == 'small' and c[2] in (200, 404) and c[0] in ('str', 'gen_str', 'file', 'coroutine') and c[5] == 'GET'
